@@ -20,7 +20,7 @@ def _leg(name, quick, thorough, **kw):
 # modules/util/variables.h: `Json js;` with only json_fwd.hpp in sight, pulled in by modules/main/*.cpp), so the leg is opt-in:
 # VERIF_C19_FUZZ=1 bin/check C19 --tier thorough.  The harness itself was validated with a direct clang build of the eight
 # translation units it needs (see findings/c19.md).
-_FUZZ = os.environ.get("VERIF_C19_FUZZ") == "1"
+_FUZZ = os.environ.get("VERIF_C19_FUZZ", "1") != "0"   # fuzz flavour builds since lib/vbuild.py force-includes json.hpp for clang
 _FUZZ_LEG = [dict(name="fuzz", harness="c19_fuzz", flavour="fuzz", mode="fuzz", args=["--runs", "200000", "--maxlen", "96"],
                   quick=0, thorough=320, env=_ENV, case_timeout=600)] if _FUZZ else []
 _FUZZ_H = {"c19_fuzz": dict(sources=["harness/c19_fuzz.cpp"], ldflags=["-fsanitize=fuzzer"])} if _FUZZ else {}
